@@ -51,10 +51,16 @@ fn send_all(tx: &OsIpcSender, case: u64, sender: u64, lens: &[usize]) -> Vec<(u6
 
 pub fn run() {
     let stdin = std::io::stdin();
+    let mut hangs = 0;
     for line in stdin.lock().lines() {
         let line = line.unwrap();
         if line.trim().is_empty() {
             continue;
+        }
+        if hangs >= 2 {
+            // every hang costs a watchdog period (and leaves blocked threads behind): two are enough to report
+            println!("{}", json!({"kind":"aborted","reason":"two hangs"}));
+            break;
         }
         let a = kv(&line);
         let id: u64 = a["id"].parse().unwrap();
@@ -116,7 +122,7 @@ pub fn run() {
                 let mut set = OsIpcReceiverSet::new().unwrap();
                 let _ = set.add(rx).unwrap();
                 // select blocks; run it on a watchdog'd helper
-                let res = with_watchdog(30_000, move || {
+                let res = with_watchdog(12_000, move || {
                     let mut got = Vec::new();
                     let mut closed = false;
                     while !closed {
@@ -151,7 +157,7 @@ pub fn run() {
                 }
                 let poll = mode == "poll";
                 let timed = mode == "timeout";
-                let res = with_watchdog(30_000, move || {
+                let res = with_watchdog(12_000, move || {
                     let mut got = Vec::new();
                     let mut closed = false;
                     let mut errors = Vec::new();
@@ -201,6 +207,9 @@ pub fn run() {
             },
         }
         let hang = errors.iter().any(|e| e == "hang");
+        if hang {
+            hangs += 1;
+        }
         if !hang {
             for h in handles {
                 let _ = h.join();
